@@ -12,8 +12,6 @@
 (*   ast   (both accept) the real AST is the specified one                  *)
 (*   pr    the real String() is the specified print of that AST             *)
 (*   srt   on the specification, Parse(PrintQ(ast)) = ast                   *)
-(*   fix   when srt fails: does the law hold with all / one of the two      *)
-(*         deviations of query.go repaired (attribution to a finding)       *)
 (*   ek/eo kind and offset of the specified parse error                     *)
 (*   vars  per re-spacing: does it have the same token sequence             *)
 (*   tn    lexer.validNumber of the text                                    *)
@@ -58,15 +56,10 @@ RecVerdict(rec) ==
     IN IF p.ok THEN
          LET pr == PrintQ(p.n)
              srt == (LET r == Parse(pr) IN r.ok /\ r.n = p.n)
-             \* attribution of a failing round trip: does the law hold with the deviations of query.go repaired
-             fix == IF srt THEN [all |-> TRUE]
-                    ELSE [all |-> RoundTripsWith({}, p.n),
-                          emptyImport |-> RoundTripsWith(CodeDeviations \ {"emptyImport"}, p.n),
-                          dotBracket |-> RoundTripsWith(CodeDeviations \ {"dotBracket"}, p.n)]
          IN
          base @@ [ast |-> IF Has(rec, "ast") THEN rec.ast = p.n ELSE TRUE,
                   pr |-> IF Has(rec, "printed") THEN rec.printed = pr ELSE TRUE,
-                  srt |-> srt, fix |-> fix, ntok |-> NTok(T)]
+                  srt |-> srt, ntok |-> NTok(T)]
        ELSE base @@ [ek |-> ErrKind(ErrTok(T, p.i)), eo |-> ErrTok(T, p.i).e, ntok |-> NTok(T)]
 
 \* The verdicts are computed and written while TLC computes the (single) initial state.
